@@ -295,3 +295,23 @@ Definition run_case (text : bool) (bpp w h npages : Z) (apage : Z) (bg : Z) (vp 
   | Host x => [2; x]
   | OutOfFuel => [3]
   end.
+
+(* ---------- histories with page selection (SCREEN ,,apage,vpage without a mode change) *)
+Inductive hstep : Type :=
+| HStmt (s : stmt)          (* a graphics statement *)
+| HSelect (a : nat).        (* select active page a: Graphics.set_page - the viewport (rectangle, origin, VIEW SCREEN
+                               flag) is ONE object that is re-pointed to the page's pixels, not a per-page setting *)
+
+Definition hexec (st : gstate) (h : hstep) : gstate :=
+  match h with
+  | HStmt s => snd (exec st s)
+  | HSelect a => if (a <? length (g_pages st))%nat
+                 then GS (g_text st) (g_bpp st) (g_pages st) a (g_vp st)
+                 else st      (* Illegal function call: nothing changes *)
+  end.
+
+Fixpoint hrun (st : gstate) (l : list hstep) : gstate :=
+  match l with
+  | [] => st
+  | h :: r => hrun (hexec st h) r
+  end.
